@@ -229,8 +229,14 @@ class Wallet:
                         unlocked.encrypt(password)
                     return False
                 decrypted.append(account)
-                await account.deterministic_channel_keys.ensure_cache_primed()
+        if not decrypted and self.encryption_password is not None:
+            # nothing was checked against this password and the wallet already has one: only that one is accepted
+            return password == self.encryption_password
+        # no await between decrypting the first account and recording the password: a save() from another task
+        # must never see decrypted accounts without a password to encrypt them with
         self.encryption_password = password
+        for account in decrypted:
+            await account.deterministic_channel_keys.ensure_cache_primed()
         return True
 
     def lock(self):
